@@ -100,6 +100,9 @@ def check(ctx):
     prog = ctx.prog.view("all")
     bs = builders(prog)
     ctx.floor("R-1", "builder types", len(bs), 14)
+    from rules import structs_common as _S
+    _S.check_derived_impls(ctx, "R-2", {"core::default::Default"}, only_structs=True)
+    _S.check_derived_impls(ctx, "R-2", {"core::clone::Clone"})
     # the guard tables below evaluate `is_private(i)` as `i < -65536`; that summary is re-checked here for every registry with
     # a private range, because the panic guards of `private_claim` & co. refuse exactly what it says (C17 R-3's recogniser)
     from rules import c17
